@@ -1,9 +1,9 @@
 ------------------------- MODULE MC_Groups -------------------------
 (* Bounded instance of Groups for the exhaustive design check and for      *)
 (* stimulus generation.  `last` = the last action with its arguments,      *)
-(* `nOps` = budget, `taint` = ghost: which of the two known ways the       *)
-(* asynchronous StreamDeleted went wrong in this behaviour.  None of them  *)
-(* is part of the VIEW.                                                    *)
+(* `nOps` = budget, `taint` = ghost: a restore that was not history-neutral *)
+(* happened in this behaviour (open finding C12-assignments-after-restore). *)
+(* None of them is part of the VIEW.                                       *)
 EXTENDS Groups, Json
 
 CONSTANTS ConsumerSet, StreamSet, MaxParts, MaxOps, Coords, MaxDeletes, GetDs, MaxRestores
@@ -15,13 +15,10 @@ G == gs[Rep]
 Existing == {s \in StreamSet : Exists(s)}
 SeqOf(S) == SortedStreams(S)
 
-Taints == (IF Overtaken' THEN {"overtaken"} ELSE {})
-
 Step(a) == /\ nOps < MaxOps /\ nOps' = nOps + 1 /\ last' = a
 
 MCInit ==
   /\ gs = [v \in Servers |-> NoGroup]
-  /\ pend = [v \in Servers |-> {}]
   /\ parts \in [StreamSet -> 0..MaxParts]
   /\ idx = 0
   /\ obs = Obs("Open", "", "", <<>>)
@@ -32,28 +29,22 @@ MCCreateStream(s, n) ==
   /\ Step([a |-> "CreateStream", s |-> s, n |-> n]) /\ UNCHANGED <<nDel, nRes, taint>>
 MCDeleteStream(s) ==
   /\ Exists(s) /\ nDel < MaxDeletes /\ DoDeleteStream(s)
-  /\ Step([a |-> "DeleteStream", s |-> s]) /\ nDel' = nDel + 1 /\ UNCHANGED nRes /\ taint' = taint \cup Taints
+  /\ Step([a |-> "DeleteStream", s |-> s]) /\ nDel' = nDel + 1 /\ UNCHANGED <<nRes, taint>>
 MCCreateGroup(c, S, coord) ==
   /\ ~GroupExists /\ S # {} /\ DoProposeCreateGroup(c, S, coord)
   /\ Step([a |-> "CreateGroup", c |-> c, streams |-> SeqOf(S), coord |-> coord])
-  /\ UNCHANGED <<nDel, nRes>> /\ taint' = taint \cup Taints
+  /\ UNCHANGED <<nDel, nRes, taint>>
 MCJoin(c, S) ==
   /\ GroupExists /\ c \notin Members(G) /\ S # {} /\ DoProposeJoin(c, S)
-  /\ Step([a |-> "Join", c |-> c, streams |-> SeqOf(S)]) /\ UNCHANGED <<nDel, nRes>> /\ taint' = taint \cup Taints
+  /\ Step([a |-> "Join", c |-> c, streams |-> SeqOf(S)]) /\ UNCHANGED <<nDel, nRes, taint>>
 \* how = "leave" | "expire": an expiry is the coordinator's liveness timer
 \* proposing the same operation
 MCLeave(c, how) ==
   /\ GroupExists /\ c \in Members(G) /\ (how = "expire" => G.coord \in Servers) /\ DoLeave(c)
-  /\ Step([a |-> "Leave", c |-> c, how |-> how]) /\ UNCHANGED <<nDel, nRes>> /\ taint' = taint \cup Taints
+  /\ Step([a |-> "Leave", c |-> c, how |-> how]) /\ UNCHANGED <<nDel, nRes, taint>>
 MCChangeCoordinator(coord) ==
   /\ GroupExists /\ coord # G.coord /\ DoChangeCoordinator(coord)
-  /\ Step([a |-> "ChangeCoordinator", coord |-> coord]) /\ UNCHANGED <<nDel, nRes>> /\ taint' = taint \cup Taints
-MCRunSD(v, s, e) ==
-  LET x == [s |-> s, e |-> e] IN
-  /\ x \in pend[v] /\ DoRunSD(v, x)
-  /\ Step([a |-> "RunSD", srv |-> v, s |-> x.s, e |-> x.e]) /\ UNCHANGED <<nDel, nRes>>
-  /\ taint' = taint \cup (IF LateFor(v, x) /\ ~SDRefused(gs[v], x.e) THEN {"late"} ELSE {})
-                    \cup (IF gs[v].exists /\ SDRefused(gs[v], x.e) THEN {"refused"} ELSE {})
+  /\ Step([a |-> "ChangeCoordinator", coord |-> coord]) /\ UNCHANGED <<nDel, nRes, taint>>
 AllCPerms == UNION {{q \in [1..Cardinality(S) -> S] : \A i, j \in DOMAIN q : i # j => q[i] # q[j]} : S \in SUBSET ConsumerSet}
 MCRestore(v, ord) ==
   /\ nRes < MaxRestores /\ gs[v].exists
@@ -75,7 +66,6 @@ MCNext ==
   \/ \E c \in ConsumerSet, S \in SUBSET StreamSet : MCJoin(c, S)
   \/ \E c \in ConsumerSet, how \in {"leave", "expire"} : MCLeave(c, how)
   \/ \E coord \in Coords : MCChangeCoordinator(coord)
-  \/ \E v \in Servers, s \in StreamSet, e \in 1..MaxOps : MCRunSD(v, s, e)
   \/ \E v \in Servers, ord \in AllCPerms : MCRestore(v, ord)
   \/ \E v \in Servers, c \in ConsumerSet, d \in GetDs : MCGetAssignments(v, c, d)
 
@@ -88,7 +78,7 @@ StepOK ==
     [] a.a = "CreateGroup" -> IF obs'.err = "precondition" THEN SameGroups
                               ELSE \A v \in Servers : gs'[v].exists /\ Members(gs'[v]) = {a.c}
     [] a.a = "Leave" -> P_Leave(a.c)
-    [] a.a = "RunSD" -> P_RunSD(a.srv, [s |-> a.s, e |-> a.e])
+    [] a.a = "DeleteStream" -> P_DeleteStream(a.s)
     [] a.a = "Restore" -> P_Restore(a.srv)
     [] OTHER -> P_Other
 StepsOK == [][StepOK]_mcvars
@@ -96,22 +86,16 @@ StepsOK == [][StepOK]_mcvars
 Clean == taint = {}
 \* a rebuilt group may differ from the live one (known finding), but it must be a
 \* VALID assignment whatever its history
-SDClean == taint \cap {"overtaken", "refused", "late"} = {}
-\* single-server requirements do not depend on the other server; they break
-\* only when an announcement was refused or came late
-Inv_ExactlyOne == SDClean => C12_ExactlyOne
+Inv_ExactlyOne == C12_ExactlyOne
 Inv_NoForeign == C12_NoForeign
-Inv_AssignedExist == SDClean => C12_AssignedExist
-Inv_Balanced == SDClean => C12_Balanced
+Inv_AssignedExist == C12_AssignedExist
+Inv_Balanced == C12_Balanced
 Inv_SameEpochSame == Clean => C12_SameEpochSame
 Inv_Converged == Clean => C12_Converged
 Inv_Impl == ImplInv
-\* reachability of the known finding (checked with a separate config: TLC must
-\* report a violation of each)
-NeverOvertaken == "overtaken" \notin taint
-NeverLate == "late" \notin taint
-Raw_SameEpochSame == C12_SameEpochSame
-Raw_AssignedExist == C12_AssignedExist
+\* reachability of the open finding C12-assignments-after-restore (checked with a
+\* separate config: TLC must report a violation)
+Raw_Converged == C12_Converged
 
-MCView == <<gs, pend, parts, idx, nOps, nDel, nRes, taint>>
+MCView == <<gs, parts, idx, nOps, nDel, nRes, taint>>
 =============================================================================
